@@ -242,14 +242,20 @@ def composite_rules(chk, qual, weighted):
                 ok = False
         if iters:
             cd = [e for e in stores if e[1][0] == "attr" and e[1][2] == "demand" and e[1][1][0] == "item"]
-            if len(cd) != 1:
-                chk.bad("O7.2", name, "one iteration writes the child's demand %d times" % len(cd), node=setter.node, stmt="child-writes")
+            # exactly one write per iteration, each to the child of that iteration
+            per_child = {}
+            for e in cd:
+                per_child[e[1][1]] = per_child.get(e[1][1], 0) + 1
+            if len(cd) != len(iters) or any(v != 1 for v in per_child.values()):
+                chk.bad("O7.2", name, "one iteration writes the child's demand %s times" % (sorted(per_child.values()) if per_child else 0), node=setter.node, stmt="child-writes")
                 ok = False
                 continue
-            child = cd[0][1][1]
-            term = N(cd[0][2])
-            fell_back = any(e[0] == "caught" for e in o.path.events)
-            shares["fallback" if fell_back else "main"].add((term, child))
+            evs_ = o.path.events
+            for e in cd:
+                k = evs_.index(e)
+                start = max([i for i, x in enumerate(evs_[:k]) if x[0] == "loop-iter"] or [0])
+                after = any(x[0] == "caught" for x in evs_[start:k])  # the fallback of THIS iteration
+                shares["fallback" if after else "main"].add((N(e[2]), e[1][1]))
     # ---- O7.3 share terms ----------------------------------------------------------------
     r3 = "O7.3"
     for term, child in shares["main"]:
